@@ -60,6 +60,14 @@ func runC14(r *simrt.Run, tier Tier) Outcome {
 	r.OrderPolicy = r.Choose(simrt.NumOrderPolicies, "c14.order")
 	r.OrderSeed = uint64(r.Choose(1<<16, "c14.orderseed"))
 	names := []string{"/a", "/b", "/c"}[:1+r.Choose(3, "c14.nnames")]
+	if r.OneIn(3, "c14.lookalike") {
+		// atoms that differ only in the kind of their argument and share a hash
+		// code (the name /a and the string "/a"; 0 and the empty list): the
+		// temporal store keeps them apart, so must everything that reads it.
+		// (Source text and reference key coincide for these constants.)
+		names = [][]string{{"/a", "\"/a\""}, {"0", "[]"}, {"/a", "\"/a\"", "0"}, {"0", "[]", "/b"}}[r.Choose(4, "c14.lookalike.set")]
+		r.Probe("atoms-with-equal-hash-in-one-window")
+	}
 	nowSec := int64(r.Choose(41, "c14.now"))
 	clockMode := r.OneIn(4, "c14.clockmode")
 	// coalesced base facts: per atom pairwise disjoint, non-adjacent intervals
